@@ -1,3 +1,3 @@
 SPECIFICATION Spec
 CONSTANT Dev = {}
-INVARIANTS NoOkWithoutCredentials OnlyValidAdmitted
+INVARIANTS NoOkWithoutCredentials OnlyValidAdmitted AdmittedOnlyByRule
